@@ -38,3 +38,81 @@ Theorem C02i_encode_is_spec_shipped : forall v bs,
   all_in_schema shipped api tbl v = true -> enc shipped v = Ok bs -> spec api (abs shipped v) = Some bs.
 Proof. exact (encode_is_spec shipped api tbl). Qed.
 Print Assumptions C02i_encode_is_spec_shipped.
+
+(* ---- the service schema (schemes/mtproto.tl): the only lines with int128 / int256 and the
+   key-exchange objects ----
+   The client (de)serialises through the generic walk exactly the definitions listed in
+   [wire_used] (the same list as Inst/C13i.v: what internal/mtproto/objects and the handshake put on or
+   take off the wire with their field layout).  Each of their struct types matches its line of
+   mtproto.tl, so C02_encode_is_spec applies, with S := mt, to every value built from them. *)
+Definition wire_used := map lit
+  ["req_pq"; "req_DH_params"; "set_client_DH_params"; "ping"; "msgs_ack"; "p_q_inner_data"; "client_DH_inner_data";
+   "resPQ"; "server_DH_params_ok"; "server_DH_params_fail"; "server_DH_inner_data"; "dh_gen_ok"; "dh_gen_retry"; "dh_gen_fail";
+   "rpc_result"; "rpc_error"; "pong"; "new_session_created"; "bad_msg_notification"; "bad_server_salt"]%string.
+Definition mt_wire := filter (fun c => list_contains wire_used (c_name c)) mt.
+Definition mt_wire_ids := map c_id mt_wire.
+Definition mt_tbl := kind_table shipped mt.
+
+(* the struct types carrying a wire-used service id: one per definition, every one in the schema *)
+Definition mt_wire_structs := filter (fun p => match s_crc (snd p) with Some k => mem k mt_wire_ids | None => false end) (indexed 0 shipped_structs).
+Theorem C02i_service_structs_in_schema :
+  length mt_wire = length wire_used /\
+  length mt_wire_structs = length wire_used /\
+  forallb (fun p => struct_in_schema shipped mt mt_tbl (fst p)) mt_wire_structs = true.
+Proof. vm_compute. repeat split. Qed.
+Print Assumptions C02i_service_structs_in_schema.
+
+Theorem C02i_encode_is_spec_service : forall v bs,
+  all_in_schema shipped mt mt_tbl v = true -> enc shipped v = Ok bs -> spec mt (abs shipped v) = Some bs.
+Proof. exact (encode_is_spec shipped mt mt_tbl). Qed.
+Print Assumptions C02i_encode_is_spec_service.
+
+(* every line of mtproto.tl that has an int128 / int256 parameter is one of them *)
+Definition uses_big (c : comb) : bool :=
+  existsb (fun p => match p_ty p with PPlain TTInt128 | PPlain TTInt256 => true | _ => false end) (c_params c).
+Theorem C02i_int128_lines_covered :
+  forallb (fun c => negb (uses_big c) || list_contains wire_used (c_name c)) mt = true /\
+  existsb uses_big mt = true /\ existsb uses_big api = false.
+Proof. vm_compute. repeat split. Qed.
+Print Assumptions C02i_int128_lines_covered.
+
+(* beyond the wire-used ones: EVERY struct type that carries an id of mtproto.tl matches its line,
+   except the two named here, which cannot be covered:
+   - future_salts#ae500895 `salts:vector<future_salt>`: the lower-case `vector` is a BARE vector (count and
+     bare items, no 0x1cb5c415, no constructor id per item); objects.FutureSalts has `Salts []*FutureSalt`,
+     which the generic walk writes as a boxed Vector of boxed objects.  The Go layout is not the schema's
+     (the client never sends or decodes it: get_future_salts is not implemented; reported by C02 when the
+     comparison is not restricted, see DESIGN.md 11.3).
+   - msg_copy#e06046b2 `orig_message:Message`: `message` is a bare type without id (line `message msg_id:long ...`
+     has no `#id`), objects.MsgCopy holds a *Message that is not a tl.Object: no descriptor exists for the field
+     (translator: `bad:*objects.Message`); a value cannot be built through the generic walk at all.
+   msg_container and gzip_packed have hand-written (de)serialisers (RContainer / RGzip, modelled in TL/Codec.v,
+   round trip in C01); destroy_session_ok/none, rpc_drop_answer, get_future_salts, ping_delay_disconnect,
+   destroy_session, http_wait have no Go type. *)
+Definition mt_ids := map c_id mt.
+Definition mt_uncovered : list N := [2924480661 (* future_salts *); 3764405938 (* msg_copy *)].
+Theorem C02i_all_service_structs_in_schema :
+  forallb (fun p => match s_crc (snd p) with
+                    | Some k => if mem k mt_ids && negb (mem k mt_uncovered) then struct_in_schema shipped mt mt_tbl (fst p) else true
+                    | None => true end) (indexed 0 shipped_structs) = true /\
+  forallb (fun k => negb (mem k mt_wire_ids)) mt_uncovered = true.
+Proof. vm_compute. split; reflexivity. Qed.
+Print Assumptions C02i_all_service_structs_in_schema.
+
+(* both schemas at once: a service object carrying API objects (rpc_result's `result:Object`, the
+   content of a container) is a value over the union.  Ids are unique across the two files, so the
+   spec's lookup finds the same line in the union as in the file that defines it. *)
+Definition both_tbl := kind_table shipped schema.
+Definition covered_ids := (api_ids ++ filter (fun k => negb (mem k mt_uncovered)) mt_ids)%list.
+Theorem C02i_all_structs_in_schema :
+  nodup_n (map c_id schema) = true /\
+  forallb (fun p => match s_crc (snd p) with
+                    | Some k => if mem k covered_ids then struct_in_schema shipped schema both_tbl (fst p) else true
+                    | None => true end) (indexed 0 shipped_structs) = true.
+Proof. vm_compute. split; reflexivity. Qed.
+Print Assumptions C02i_all_structs_in_schema.
+
+Theorem C02i_encode_is_spec_both : forall v bs,
+  all_in_schema shipped schema both_tbl v = true -> enc shipped v = Ok bs -> spec schema (abs shipped v) = Some bs.
+Proof. exact (encode_is_spec shipped schema both_tbl). Qed.
+Print Assumptions C02i_encode_is_spec_both.
